@@ -21,7 +21,7 @@ RULE = ('Rule sets in most_specific mode assembled from components with known ra
 ASSUMPTIONS = ['admissible readings: constraint kinds = 8 keywords (weekday once or as day+weekday) or 4 groups; pattern text = all string '
                'literals or only pattern-call arguments; a case is asserted only where all readings agree (others counted as ambiguous)',
                'pattern texts contain no escapes or quotes so that source length = value length']
-REQUIRED_CLASSES = ['priority_decides', 'pattern_count_decides', 'constraints_decide', 'length_decides', 'exact_tie', 'keyword_in_text',
+REQUIRED_CLASSES = ['kind_used_twice', 'priority_decides', 'pattern_count_decides', 'constraints_decide', 'length_decides', 'exact_tie', 'keyword_in_text',
                     'same_match_diff_priority', 'subcategory_from_other_rule']
 
 DESC = 'HOLIDAY INN PAYDAY LOAN AMOUNT DUE SOURCE UBER EATS 4521 FIELD TRIP'
@@ -32,10 +32,10 @@ TEXTS = ['UBER', 'UBER EATS', 'HOLIDAY INN', 'HOLIDAY', 'PAYDAY LOAN', 'PAYDAY',
 NOT_IN = ['LYFT', 'NETFLIX', 'MONDAY']
 TRUE_CONSTRAINTS = {
     'amount': [['cmp', ['name', 'amount'], [['>', ['num', 100]]]], ['cmp', ['txn', 'amount'], [['<', ['num', 500]]]]],
-    'date': [['cmp', ['name', 'date'], [['>=', ['str', '2024-01-01']]]]],
-    'month': [['cmp', ['name', 'month'], [['==', ['num', 6]]]]],
-    'year': [['cmp', ['name', 'year'], [['==', ['num', 2024]]]]],
-    'day': [['cmp', ['name', 'day'], [['==', ['num', 15]]]]],
+    'date': [['cmp', ['name', 'date'], [['>=', ['str', '2024-01-01']]]], ['cmp', ['name', 'date'], [['<=', ['str', '2024-12-31']]]]],
+    'month': [['cmp', ['name', 'month'], [['==', ['num', 6]]]], ['cmp', ['name', 'month'], [['>=', ['num', 1]]]], ['cmp', ['name', 'month'], [['<=', ['num', 12]]]]],
+    'year': [['cmp', ['name', 'year'], [['==', ['num', 2024]]]], ['cmp', ['name', 'year'], [['>', ['num', 2000]]]]],
+    'day': [['cmp', ['name', 'day'], [['==', ['num', 15]]]], ['cmp', ['name', 'day'], [['<', ['num', 20]]]]],
     'weekday': [['cmp', ['name', 'weekday'], [['==', ['num', 5]]]]],
     'source': [['cmp', ['name', 'source'], [['==', ['str', 'Amex']]]]],
     'field': [['cmp', ['field', 'type'], [['==', ['str', 'WIRE']]]], ['match', 'contains', ['field', 'memo'], 'REF']],
@@ -61,6 +61,10 @@ def c09_rule(draw, idx):
     pats = draw(st.lists(pattern_call(), min_size=1, max_size=3))
     kinds = draw(st.lists(st.sampled_from(KINDS), max_size=3, unique=True))
     cons = [draw(st.sampled_from(TRUE_CONSTRAINTS[k])) for k in kinds]
+    # the same KIND of constraint used more than once (ranges) still counts as one kind
+    for k in kinds:
+        if len(TRUE_CONSTRAINTS[k]) > 1 and draw(st.integers(0, 3)) == 0:
+            cons += [c for c in draw(st.lists(st.sampled_from(TRUE_CONSTRAINTS[k]), min_size=1, max_size=2)) if c not in cons]
     parts = pats + cons
     if draw(st.integers(0, 9)) == 0:
         parts = parts + [draw(st.sampled_from(FALSE_CONSTRAINTS))]
@@ -221,6 +225,10 @@ def check(case, stats: Stats):
     if any(any(kw in x.lower() for kw in ('amount', 'date', 'month', 'year', 'day', 'source', 'field')) for r in cat_c.values()
            for nn in lang.walk(r['match']) if nn[0] in ('match', 'anyof') for x in ([nn[3]] if nn[0] == 'match' else nn[1])):
         classes.add('keyword_in_text')
+    for r in cat_c.values():
+        names_seen = [n[1].lower() for n in lang.walk(r['match']) if n[0] in ('name', 'txn') and n[1].lower() in GROUP] + ['field' for n in lang.walk(r['match']) if n[0] == 'field']
+        if len(names_seen) != len(set(names_seen)):
+            classes.add('kind_used_twice')
     ms = [lang.render(r['match']) for r in cat_c.values()]
     if len(set(ms)) < len(ms) and len({r['priority'] for r in cat_c.values()}) > 1:
         classes.add('same_match_diff_priority')
